@@ -41,7 +41,23 @@ func Exec(s *world.Stack, w *world.World, rq world.Req, forPID string) *world.Ob
 	if s.Cfg.Has("remember") && o.UIDBefore() == "" {
 		if c := o.CookBefore["rm"]; c != "" {
 			if sec := t.ByVal("rm", c); sec != nil && !sec.Dead {
-				sec.Dead, sec.Why, sec.Used = true, "used", true
+				spent := true
+				if len(o.FaultFired) > 0 {
+					// a backend failure may have stopped the request before the token was
+					// consumed: then (and only then) storage decides
+					h, _ := world.RememberHash(c)
+					spent = true
+					for _, l := range w.DB.Tokens {
+						for _, th := range l {
+							if th == h {
+								spent = false
+							}
+						}
+					}
+				}
+				if spent {
+					sec.Dead, sec.Why, sec.Used = true, "used", true
+				}
 			}
 		}
 	}
@@ -231,6 +247,15 @@ func Put(b, k, v string) world.Req {
 func A(name string, build func(s *world.Stack, w *world.World) world.Req, forPID string) engine.Action {
 	return engine.Action{Name: name, Run: func(s *world.Stack, w *world.World) *world.Obs {
 		return Exec(s, w, build(s, w), forPID)
+	}}
+}
+
+// AFault is A with one backend call (the first with the given seam label) failing.
+func AFault(name, label string, build func(s *world.Stack, w *world.World) world.Req) engine.Action {
+	return engine.Action{Name: name + "!fault(" + label + ")", Run: func(s *world.Stack, w *world.World) *world.Obs {
+		s.FaultLabel = label
+		defer func() { s.FaultLabel = "" }()
+		return Exec(s, w, build(s, w), "")
 	}}
 }
 
